@@ -393,7 +393,7 @@ impl FileSrc {
     fn json(&self) -> J { match self { FileSrc::Text(s) => js(s), FileSrc::Rep(u, n) => J::Arr(vec![js(u), J::Num(*n as f64)]) } }
 }
 #[derive(Clone)]
-struct ParseCase { family: &'static str, files: Vec<(String, FileSrc)>, scripts: Vec<(String, String)>, dev: bool }
+struct ParseCase { family: &'static str, files: Vec<(String, FileSrc)>, scripts: Vec<(String, String)>, dev: bool, extra: Option<String> }
 #[derive(Clone)]
 enum Case { Eval(EvalCase), Parse(ParseCase) }
 
@@ -1082,6 +1082,7 @@ fn pc(family: &'static str, files: Vec<(&str, String)>, scripts: Vec<(&str, &str
             files: files.iter().map(|(p, s)| (p.to_string(), FileSrc::Text(s.clone()))).collect(),
             scripts: scripts.iter().map(|(p, s)| (p.to_string(), s.to_string())).collect(),
             dev,
+            extra: None,
         }));
     }
 }
@@ -1128,6 +1129,25 @@ fn family_parse(out: &mut Vec<Case>) {
             pc("wxs", vec![(&format!("q/{}", s), "<wxs module=\"m\">exports.a = 1</wxs><view>{{ m.a }}</view>".to_string())], vec![], out);
         }
     }
+    // an extra runtime script ("valid JavaScript statements, ended by semicolon"), with and without script modules in the group
+    for extra in ["var zz=1;", "zz=1;var y=2;", "function zf(){};", ";", "/* c */;", "var zz=1;\n"] {
+        for (files, scripts) in [
+            (vec![("p/e", "<view>{{ a }}</view>".to_string())], vec![]),
+            (vec![("p/e", "<wxs module=\"m\">exports.a = 1</wxs><view>{{ m.a }}</view>".to_string())], vec![]),
+            (vec![("p/e", "<wxs module=\"n\" src=\"./s.wxs\"/><view>{{ n.a }}</view>".to_string())], vec![("p/s", "exports.a = 1")]),
+            (vec![], vec![]),
+        ] {
+            for dev in [false, true] {
+                out.push(Case::Parse(ParseCase {
+                    family: "extra",
+                    files: files.iter().map(|(p, s): &(&str, String)| (p.to_string(), FileSrc::Text(s.clone()))).collect(),
+                    scripts: scripts.iter().map(|(p, s): &(&str, &str)| (p.to_string(), s.to_string())).collect(),
+                    dev,
+                    extra: Some(extra.to_string()),
+                }));
+            }
+        }
+    }
     // script bodies that are valid JavaScript on their own
     for body in ["exports.a = 1", "exports.a = 1;", "exports.a = 1 // trailing comment", "// only a comment", "// a comment\nexports.a = 1", "/* c */", "", "\n", "exports.a = '</wxs>'.length", "'use strict'; exports.a = 1",
         "exports.a = function () { return 1 }", "var a = 1\nvar b = 2\n", "exports.a = /[/]/.test('/')", "exports.a = `\n${1}\n`", "if (true) { exports.a = 1 } else { exports.a = 2 }", "label: for (;;) { break label }",
@@ -1170,7 +1190,7 @@ fn family_parse(out: &mut Vec<Case>) {
         pc("illformed", vec![("p/bad", t.to_string())], vec![], out);
     }
     // 190000 sibling elements (walks the generated names over `var`, `for`, `new`, `let`, `try`): normal mode only
-    out.push(Case::Parse(ParseCase { family: "huge", files: vec![("big".into(), FileSrc::Rep("<a/>".into(), 190_000))], scripts: vec![], dev: false }));
+    out.push(Case::Parse(ParseCase { family: "huge", files: vec![("big".into(), FileSrc::Rep("<a/>".into(), 190_000))], scripts: vec![], dev: false, extra: None }));
 }
 
 // ------------------------------------------------------------------------------------------------ driver
@@ -1231,12 +1251,14 @@ fn encode_eval_alt(c: &EvalCase, tuple: &[usize], alt: Option<(String, J)>) -> S
     jo(o).text()
 }
 fn encode_parse(c: &ParseCase) -> String {
-    jo(vec![
+    let mut o = vec![
         ("k", js("parse")),
         ("files", J::Arr(c.files.iter().map(|(p, s)| J::Arr(vec![js(p), s.json()])).collect())),
         ("scripts", J::Arr(c.scripts.iter().map(|(p, s)| J::Arr(vec![js(p), js(s)])).collect())),
         ("dev", J::Bool(c.dev)),
-    ]).text()
+    ];
+    if let Some(e) = &c.extra { o.push(("extra", js(e))); }
+    jo(o).text()
 }
 fn decode_input(input: &str) -> Option<Case> {
     let j = parse_json(input)?;
@@ -1267,6 +1289,7 @@ fn decode_input(input: &str) -> Option<Case> {
             }).collect(),
             scripts: j.get("scripts").map(|s| s.arr().iter().map(|f| (f.arr()[0].str().unwrap_or("").to_string(), f.arr()[1].str().unwrap_or("").to_string())).collect()).unwrap_or_default(),
             dev: j.get("dev").map(|d| d.truthy()).unwrap_or(false),
+            extra: j.get("extra").and_then(|x| x.str()).map(|s| s.to_string()),
         })),
         _ => None,
     }
@@ -1321,6 +1344,7 @@ fn compile(id: usize, case: &Case, seen: &mut std::collections::HashSet<String>)
                 let mut g = if c2.dev { TmplGroup::new_dev() } else { TmplGroup::new() };
                 for (p, s) in &c2.files { let _ = g.add_tmpl(p, &s.text()); }
                 for (p, s) in &c2.scripts { g.add_script(p, s); }
+                if let Some(e) = &c2.extra { g.set_extra_runtime_script(e); }
                 let mut arts: Vec<(String, String, &str)> = vec![("get_runtime_string".into(), g.get_runtime_string(), "stmts")];
                 if let Ok(x) = g.export_globals() { arts.push(("export_globals".into(), x, "stmts")); }
                 if let Ok(x) = g.export_all_scripts() { arts.push(("export_all_scripts".into(), x, "stmts")); }
